@@ -414,14 +414,8 @@ func (n *lazyNode) equal(o *lazyNode) bool {
 				return false
 			}
 
-			if (v == nil) != (ov == nil) {
-				return false
-			}
-
-			if v == nil && ov == nil {
-				continue
-			}
-
+			// equal itself knows the two spellings of null (a nil node for a
+			// decoded null, a node holding `null` for one stored by a patch).
 			if !v.equal(ov) {
 				return false
 			}
